@@ -226,10 +226,25 @@ func c08Exec(r *vf.Run, k c08Case) []finding {
 		if !res.AttrsInDER {
 			add("signed-attributes-not-DER-ordered/"+rn, "%s: signed attributes are not in DER SET OF order", rn)
 		}
+		if k.Spec.Inter {
+			found := false
+			for _, c := range res.Certs {
+				if bytes.Equal(c.Raw, hx.Mat().InterCert.Raw) {
+					found = true
+				}
+			}
+			if !found && len(res.Certs) >= 2 {
+				var cns []string
+				for _, c := range res.Certs {
+					cns = append(cns, c.Subject.CommonName)
+				}
+				add("intermediate-not-among-certificates/"+rn, "%s: the intermediate certificate that was given is not in the PKCS#7 structure, which carries %v — %s", rn, cns, k.Spec.Describe())
+			}
+		}
 		if k.Spec.Inter && len(res.Certs) < 2 {
 			add("intermediate-missing/"+rn, "%s: intermediate certificate was given but %d certificate(s) are embedded", rn, len(res.Certs))
 		}
-		if !k.Spec.Inter && len(res.Certs) != 1 {
+		if !k.Spec.Inter && len(res.Certs) != 1 && k.Spec.SignAPI == 0 {
 			add("unexpected-certificates/"+rn, "%s: %d certificates embedded, want 1", rn, len(res.Certs))
 		}
 		// the signed entity must be the message that was built
@@ -360,6 +375,15 @@ func c08Specs(thorough bool) []c08Case {
 								if thorough || n%3 == 0 || mod == "none" {
 									for _, fa := range []int{1, 200, 600, 1500} {
 										cs = append(cs, c08Case{Spec: v, Renders: 2, Ks: []int{0, 0}, Mod: mod, FailAt: fa})
+									}
+								}
+								if thorough || n%4 == 0 || mod == "none" {
+									// the other signing entry point, with certificate chains of 1..3 entries
+									for api := 1; api <= 4; api++ {
+										w := v
+										w.SignAPI = api
+										w.Inter = api >= 2
+										cs = append(cs, c08Case{Spec: w, Renders: 2, Ks: []int{0, 0}, Mod: mod})
 									}
 								}
 								if thorough || n%4 == 0 || mod == "none" {
